@@ -9,9 +9,9 @@ from harness.props import pinch_common as pc
 MODEL_TARGETS = ["model/Cascade.vo", "model/Twins.vo"]
 ALLOWED_AXIOMS = []
 HDR = ("From OP Require Import gen.Consts model.Base model.Twins.\nRequire Import Coq.QArith.QArith.\nLocal Open Scope Q_scope.")
-RULE = ("every generated problem (1-3 zones, isothermal utility ladders with distinct levels or defaults only) is run together with "
+RULE = ("every generated problem (1-3 zones, isothermal or gliding utility ladders with distinct levels, ladders steered to the process extremes, or defaults only) is run together with "
         "its transformed twins: streams/utilities/zones permuted, one stream split at an intermediate lattice temperature, one stream "
-        "split into two parallel branches, zones renamed injectively, all temperatures translated by d in {-40, 12.5, 100}, all duties "
+        "split into two parallel branches, zones renamed injectively, all temperatures translated by d in {-40, 12.5, 100} or by minus a utility temperature (so that it lands on exactly 0.0), all duties "
         "scaled by k in {0.5, 2, 4, 10}, temperature axis mirrored (hot<->cold, utilities swapped; latent streams excluded because the "
         "schema cannot express a hot latent stream); EVERY record (DI of every zone, total-process, total-site) of the twin is related "
         "to the original's in coqc: targets, utility duties by name, pinch temperatures; non-trivial = twin of a problem with both hot "
@@ -80,6 +80,10 @@ def t_rename(rng, p):
 def t_translate(rng, p):
     q = copy.deepcopy(p)
     d = rng.choice([-40.0, 12.5, 100.0])
+    if q["utilities"] and rng.random() < 0.6:
+        # a shift that puts some utility temperature exactly on zero (no temperature is special: not even 0.0)
+        u = rng.choice(q["utilities"])
+        d = -rng.choice([u["t_supply"], u["t_target"]])
     for s in q["streams"] + q["utilities"]:
         s["t_supply"] += d
         s["t_target"] += d
@@ -110,6 +114,23 @@ TWINS = [("permute", t_permute), ("split_T", t_split_T), ("branches", t_split_br
          ("scale", t_scale), ("mirror", t_mirror)]
 
 
+def mirror_both_glide(prob, a, b):
+    """Trigger of finding D52: an isothermal utility of type Both exists and the mirrored pinch temperatures differ from the
+    expected ones by no more than the artificial phase-change glide (0.1 K) given to isothermal utilities."""
+    if not any(u["type"] == "Both" and u["t_supply"] == u["t_target"] for u in prob["utilities"]):
+        return False
+    th_a = a["hot"] if a["hot"] is not None else a["cold"]
+    th_b = b["hot"] if b["hot"] is not None else b["cold"]
+    pairs = [(b["cold"], None if th_a is None else -th_a), (th_b, None if a["cold"] is None else -a["cold"])]
+    if not all((x is None) == (y is None) and (x is None or abs(x - y) <= 0.1 + 1e-5) for x, y in pairs):
+        return False
+    # duties may move by at most the glide (0.1 K) times the total heat-capacity flow rate of the problem
+    cp = sum(s["heat_flow"] / abs(s["t_supply"] - s["t_target"]) for s in prob["streams"] if s["t_supply"] != s["t_target"])
+    lim = 0.1 * cp + 1e-6
+    return (abs(b["Qh"] - a["Qc"]) <= lim and abs(b["Qc"] - a["Qh"]) <= lim and abs(b["Qr"] - a["Qr"]) <= lim
+            and abs(sum(b["hu"].values()) - sum(a["cu"].values())) <= lim and abs(sum(b["cu"].values()) - sum(a["hu"].values())) <= lim)
+
+
 def map_record_name(name, zmap):
     if not zmap:
         return name
@@ -121,9 +142,14 @@ def run(ctx):
     n = ctx.budget(45, 1500)
     cf = CaseFile(ctx, "twins", HDR, shard=60)
     meta = []
-    base = [(dict(streams=[dict(zone="A", name="h", t_supply=200.0, t_target=100.0, heat_flow=100.0, dt_cont=10.0, htc=1.0)], utilities=[]), None)]
+    base = [(dict(streams=[dict(zone="A", name="h", t_supply=200.0, t_target=100.0, heat_flow=100.0, dt_cont=10.0, htc=1.0)], utilities=[]), None),
+            # D52 witness: isothermal Both utility, mirror image off by the 0.1 K artificial glide
+            (dict(streams=[dict(zone="P0", name="S0", t_supply=300.0, t_target=235.0, heat_flow=16.25, dt_cont=5.0, htc=1.0),
+                           dict(zone="P0", name="S1", t_supply=165.0, t_target=220.0, heat_flow=110.0, dt_cont=2.5, htc=2.0)],
+                  utilities=[dict(name="TopU", type="Both", t_supply=285.0, t_target=285.0, heat_flow=0.0, dt_cont=10.0, htc=1.0, price=30.0),
+                             dict(name="BotU", type="Cold", t_supply=162.5, t_target=162.5, heat_flow=0.0, dt_cont=5.0, htc=1.0, price=2.0)]), None)]
     for _ in range(n):
-        base.append(pc.gen_problem(ctx.rng, nzones=ctx.rng.choice([1, 1, 2, 3]), regime=ctx.rng.choice(["none", "iso", "multi"]), nmax=5))
+        base.append(pc.gen_problem(ctx.rng, nzones=ctx.rng.choice([1, 1, 2, 3]), regime=ctx.rng.choice(["none", "iso", "multi", "glide", "steered"]), nmax=5))
     for prob, m in base:
         try:
             ra = records(prob)
@@ -169,6 +195,11 @@ def run(ctx):
         ctx.sample(dict(transformation=tname, record=name, original=(a["Qh"], a["Qc"], a["Qr"]), twin=(b["Qh"], b["Qc"], b["Qr"])), limit=7)
         if v[0] == 0:
             agree += 1
+            continue
+        if tname == "mirror" and mirror_both_glide(prob, a, b):
+            ctx.fail("mirror-both-isothermal-glide", f"mirror: pinch temperature of record {name} is off by the 0.1 K artificial glide of an "
+                     "isothermal Both utility", suite="twins", input=dict(problem=prob, twin=q, transformation=tname, record=name),
+                     impl_output=dict(original=a, twin=b), predicate="c12_b")
             continue
         if bad < 3:
             clause = {121: "targets", 122: "utility duties", 123: "pinch temperatures"}.get(v[1], str(v))
